@@ -203,7 +203,10 @@ theorem emit_read_time (s : Slot) (hk : s.kind = .time) (hw : s.wf = true) (v : 
     · simp [hn, zeroTime]
     · simp only [hn, ↓reduceIte]
       have : ¬ ((n % 2 ^ 32 : Nat) : Int) < 0 := by omega
-      simp only [this, ↓reduceIte, Int.toNat_natCast, Nat.mod_mod]
+      have hmin : min ((n % 2 ^ 32 : Nat) : Int) durSatSec = ((n % 2 ^ 32 : Nat) : Int) := by
+        have : n % 2 ^ 32 < 2 ^ 32 := Nat.mod_lt _ (by decide)
+        simp only [durSatSec]; omega
+      simp only [this, ↓reduceIte, hmin, Int.toNat_natCast, Nat.mod_mod]
   · have : read s v = .time zeroTime := by
       rw [hpt] at ht
       cases v <;> simp_all [read, typeOf]
@@ -341,13 +344,21 @@ theorem filterMap_congr' {α β : Type} (l : List α) (f g : α → Option β) (
 
 theorem wf_panics (T : MesgTable) (hw : T.wf = true) : T.panics = [] := by
   simp only [MesgTable.wf, Bool.and_eq_true, List.isEmpty_iff] at hw
-  exact hw.1.1.1
+  exact hw.1.1.1.1
+
+theorem wf_hasDev (T : MesgTable) (hw : T.wf = true) : T.hasDev = true := by
+  simp only [MesgTable.wf, Bool.and_eq_true] at hw
+  exact hw.2
+
+theorem wf_nodup (T : MesgTable) (hw : T.wf = true) : nodup (T.slots.map (·.num)) = true := by
+  simp only [MesgTable.wf, Bool.and_eq_true] at hw
+  exact hw.1.1.2
 
 theorem wf_slot (T : MesgTable) (hw : T.wf = true) (s : Slot) (hs : s ∈ T.slots) :
     s.wf = true ∧ s.readNum = s.num ∧ s.num < T.guard ∧ (s.canExpand = true → s.num < T.markBound) := by
   simp only [MesgTable.wf, Bool.and_eq_true, List.all_eq_true, beq_iff_eq, decide_eq_true_eq, Bool.or_eq_true,
     Bool.not_eq_true'] at hw
-  have h := hw.2 s hs
+  have h := hw.1.2 s hs
   refine ⟨h.1.1.1, h.1.1.2, h.1.2, ?_⟩
   intro hc
   rcases h.2 with h2 | h2
@@ -410,72 +421,40 @@ theorem copyInto_same {α : Type} (dst src : List α) (h : src.length = dst.leng
 theorem typeOf_invalid_ne (t : Nat) (h : 1 ≤ t) : ¬ typeOf Value.invalid = t := by
   simp [typeOf, typeInvalid]; omega
 
-theorem read_emit_scalar (s : Slot) (hk : s.kind = .scalar) (hw : s.wf = true) (x : SlotVal) (hr : slotInRange s x = true) :
+theorem read_emit_scalar (s : Slot) (hk : s.kind = .scalar) (hw : s.wf = true) (x : SlotVal) (hr : shapeOk s x = true) :
     read s ((emit s x).getD .invalid) = x := by
   simp only [Slot.wf, hk, Bool.and_eq_true, beq_iff_eq, bne_iff_ne] at hw
   obtain ⟨⟨⟨⟨hst, _⟩, hd⟩, hse⟩, _⟩ := hw
   cases x with
-  | time t => simp [slotInRange, shapeOk, hk] at hr
+  | time t => simp [shapeOk, hk] at hr
   | val v =>
-    simp only [slotInRange, shapeOk, hk, Bool.and_true, beq_iff_eq] at hr
+    simp only [shapeOk, hk, beq_iff_eq] at hr
     have h1 : 1 ≤ s.ptype := ((isScalarType_iff _).mp hst).1
     by_cases hv : v = s.sentinel
     · simp only [emit, hk, hv, ↓reduceIte, Option.getD_none, read, typeOf_invalid_ne _ h1, hse]
     · simp only [emit, hk, hv, ↓reduceIte, Option.getD_some, read, hr]
 
-theorem read_emit_bool (s : Slot) (hk : s.kind = .bool) (hw : s.wf = true) (x : SlotVal) (hr : slotInRange s x = true) :
+theorem read_emit_str (s : Slot) (hk : s.kind = .str) (hw : s.wf = true) (x : SlotVal) (hr : shapeOk s x = true) :
     read s ((emit s x).getD .invalid) = x := by
   simp only [Slot.wf, hk, Bool.and_eq_true, beq_iff_eq] at hw
   obtain ⟨⟨hpt, hd⟩, _⟩ := hw
   cases x with
-  | time t => simp [slotInRange, shapeOk, hk] at hr
+  | time t => simp [shapeOk, hk] at hr
   | val v =>
-    simp only [slotInRange, shapeOk, hk, Bool.and_eq_true, beq_iff_eq, Bool.or_eq_true] at hr
-    obtain ⟨ht, hb⟩ := hr
-    have h1 : 1 ≤ s.ptype := by rw [hpt]; simp [typeBool]
-    by_cases hv : boolValid v = true
-    · simp only [emit, hk, hv, ↓reduceIte, Option.getD_some, read, ht]
-    · have : v = s.dflt := by rcases hb with h | h; exact absurd h hv; exact h
-      rw [this] at hv ⊢
-      simp only [emit, hk, hv, Bool.false_eq_true, ↓reduceIte, Option.getD_none, read, typeOf_invalid_ne _ h1]
-
-theorem read_emit_str (s : Slot) (hk : s.kind = .str) (hw : s.wf = true) (x : SlotVal) (hr : slotInRange s x = true) :
-    read s ((emit s x).getD .invalid) = x := by
-  simp only [Slot.wf, hk, Bool.and_eq_true, beq_iff_eq] at hw
-  obtain ⟨⟨hpt, hd⟩, _⟩ := hw
-  cases x with
-  | time t => simp [slotInRange, shapeOk, hk] at hr
-  | val v =>
-    simp only [slotInRange, shapeOk, hk, Bool.and_true, beq_iff_eq] at hr
+    simp only [shapeOk, hk, beq_iff_eq] at hr
     have h1 : 1 ≤ s.ptype := by rw [hpt]; simp [typeString]
     by_cases hv : v = .string []
     · simp only [emit, hk, hv, ↓reduceIte, Option.getD_none, read, typeOf_invalid_ne _ h1, hd]
     · simp only [emit, hk, hv, ↓reduceIte, Option.getD_some, read, hr]
 
-theorem read_emit_time (s : Slot) (hk : s.kind = .time) (x : SlotVal) (hr : slotInRange s x = true) :
-    read s ((emit s x).getD .invalid) = x := by
-  cases x with
-  | val v => simp [slotInRange, shapeOk, hk] at hr
-  | time t =>
-    simp only [slotInRange, shapeOk, hk, Bool.true_and, Bool.or_eq_true, beq_iff_eq, Bool.and_eq_true, decide_eq_true_eq] at hr
-    rcases hr with h | ⟨h0, h1⟩
-    · subst h
-      simp [emit, hk, read, zeroTime]
-    · have hlt : ¬ t < 0 := by omega
-      have hn : t.toNat % 2 ^ 32 = t.toNat := Nat.mod_eq_of_lt (by omega)
-      have hne : ¬ t.toNat = uint32Invalid := by simp [uint32Invalid]; omega
-      simp only [emit, hk, hlt, ↓reduceIte, Option.getD_some, read, hn, hne]
-      congr 1
-      omega
-
-theorem read_emit_slice (s : Slot) (hk : s.kind = .slice) (hw : s.wf = true) (x : SlotVal) (hr : slotInRange s x = true) :
+theorem read_emit_slice (s : Slot) (hk : s.kind = .slice) (hw : s.wf = true) (x : SlotVal) (hr : shapeOk s x = true) :
     read s ((emit s x).getD .invalid) = x := by
   simp only [Slot.wf, hk, Bool.and_eq_true, beq_iff_eq, Bool.or_eq_true] at hw
   obtain ⟨⟨hpt, hd⟩, _⟩ := hw
   cases x with
-  | time t => simp [slotInRange, shapeOk, hk] at hr
+  | time t => simp [shapeOk, hk] at hr
   | val v =>
-    simp only [slotInRange, shapeOk, hk, Bool.and_true, beq_iff_eq, Bool.or_eq_true] at hr
+    simp only [shapeOk, hk, beq_iff_eq, Bool.or_eq_true] at hr
     have h1 : 1 ≤ s.ptype := by
       rcases hpt with h | h
       · have := ((isNumSliceType_iff _).mp h).1; omega
@@ -485,14 +464,14 @@ theorem read_emit_slice (s : Slot) (hk : s.kind = .slice) (hw : s.wf = true) (x 
     · have ht : typeOf v = s.ptype := by rcases hr with h | h; exact absurd h hv; exact h
       simp only [emit, hk, hv, ↓reduceIte, Option.getD_some, read, ht]
 
-theorem read_emit_fixed (s : Slot) (n : Nat) (hk : s.kind = .fixed n) (hw : s.wf = true) (x : SlotVal) (hr : slotInRange s x = true) :
+theorem read_emit_fixed (s : Slot) (n : Nat) (hk : s.kind = .fixed n) (hw : s.wf = true) (x : SlotVal) (hr : shapeOk s x = true) :
     read s ((emit s x).getD .invalid) = x := by
   simp only [Slot.wf, hk, Bool.and_eq_true, beq_iff_eq] at hw
   obtain ⟨⟨hd, hse⟩, _⟩ := hw
   cases x with
-  | time t => simp [slotInRange, shapeOk, hk] at hr
+  | time t => simp [shapeOk, hk] at hr
   | val v =>
-    simp only [slotInRange, shapeOk, hk, Bool.and_true, beq_iff_eq, Bool.and_eq_true] at hr
+    simp only [shapeOk, hk, beq_iff_eq, Bool.and_eq_true] at hr
     obtain ⟨ht, hlen⟩ := hr
     have h1 : 1 ≤ s.ptype := by
       by_cases hs : s.ptype = typeSliceString
@@ -520,18 +499,6 @@ theorem read_emit_fixed (s : Slot) (n : Nat) (hk : s.kind = .fixed n) (hw : s.wf
         have hl : (elems v).length = n := by
           cases v <;> first | (simpa using hlen) | exact absurd (by simpa [typeOf] using ht.symm) hs
         rw [hd, hvv, readFixed_mkSlice _ _ _ hns, copyInto_same _ _ (by simp [elems_mkSlice _ _ hns, hl])]
-
-/-- **The slot lemma, other direction**: a slot content in range is read back unchanged from what ToMesg emits for it
-(from the invalid value when nothing is emitted) -/
-theorem read_emit (s : Slot) (hw : s.wf = true) (x : SlotVal) (hr : slotInRange s x = true) :
-    read s ((emit s x).getD .invalid) = x := by
-  cases hk : s.kind with
-  | scalar => exact read_emit_scalar s hk hw x hr
-  | bool => exact read_emit_bool s hk hw x hr
-  | str => exact read_emit_str s hk hw x hr
-  | time => exact read_emit_time s hk x hr
-  | slice => exact read_emit_slice s hk hw x hr
-  | fixed n => exact read_emit_fixed s n hk hw x hr
 
 /-! ### the message ToMesg emits, looked up by Reset -/
 
@@ -718,112 +685,6 @@ theorem testBit_le_log2 (n j : Nat) (h : n.testBit j = true) : j < n.log2 + 1 :=
 theorem zip_fst_snd {α β : Type} (a : List α) (b : List β) (h : b.length = a.length) :
     (a.zip b).map Prod.fst = a ∧ (a.zip b).map Prod.snd = b :=
   ⟨List.map_fst_zip (by omega), List.map_snd_zip (by omega)⟩
-
-/-- **struct → message → struct** is the identity on structs in range (IncludeExpandedFields, a factory that knows the
-message), for every well-formed table -/
-theorem ofMesg_toMesg (T : MesgTable) (hw : T.wf = true) (fac : Nat → Field) (hf : facOk T fac = true) (st : Struct)
-    (hr : inRange T st = true) : ofMesg T (toMesg T fac { includeExpanded := true } st) = .ok st := by
-  simp only [inRange, Bool.and_eq_true, beq_iff_eq, List.all_eq_true, Bool.or_eq_true, Bool.not_eq_true',
-    List.any_eq_true, List.isEmpty_iff] at hr
-  obtain ⟨⟨⟨⟨hlen, hslots⟩, hstate⟩, hunk⟩, hdev⟩ := hr
-  have hp := wf_panics T hw
-  let Z := T.slots.zip st.vals
-  obtain ⟨hzf, hzs⟩ := zip_fst_snd T.slots st.vals hlen
-  have hZmem : ∀ p ∈ Z, p.1 ∈ T.slots := fun p hp => (List.of_mem_zip hp).1
-  have hok : ∀ p ∈ Z, FacOkS fac p.1 ∧ p.1.num < T.guard := fun p hp =>
-    ⟨facOk_slot T fac hf p.1 (hZmem p hp), (wf_slot T hw p.1 (hZmem p hp)).2.2.1⟩
-  have hnd : nodup (Z.map (·.1.num)) = true := by
-    have : Z.map (·.1.num) = T.slots.map (·.num) := by
-      rw [← hzf, List.map_map]; rfl
-    rw [this]
-    simp only [MesgTable.wf, Bool.and_eq_true] at hw
-    exact hw.1.2
-  have hU : ∀ f ∈ st.unknown, stored T f = false := fun f hf => by
-    have := (hunk f hf).2; simpa using this
-  have hfields : (toMesg T fac { includeExpanded := true } st).fields = knownOf T fac st Z ++ st.unknown := by
-    simp only [toMesg, knownOf]
-    congr 1
-    apply filterMap_congr'
-    intro p _
-    exact emitField_incl T fac st p.1 p.2
-  have hbase : ∀ f ∈ (toMesg T fac { includeExpanded := true } st).fields, f.base ≠ none := by
-    intro f hfm
-    rw [hfields, List.mem_append] at hfm
-    rcases hfm with h | h
-    · obtain ⟨p, hp', v, _, rfl⟩ := mem_knownOf T fac st Z f h
-      obtain ⟨b, hb, _⟩ := (hok p hp').1
-      rw [mkF_base, hb]; simp
-    · have := (hunk f h).1
-      intro e; rw [e] at this; cases this
-  unfold ofMesg
-  rw [run_ok T hp _ Acc.init hbase, hfields]
-  simp only [Acc.init, List.nil_append]
-  congr 1
-  -- the four components
-  have hvals : (T.slots.map fun s => read s (lastFrom T s.readNum Value.invalid (knownOf T fac st Z ++ st.unknown))) = st.vals := by
-    conv => lhs; rw [← hzf]
-    conv => rhs; rw [← hzs]
-    rw [List.map_map]
-    apply List.map_congr_left
-    intro p hp'
-    have hs := wf_slot T hw p.1 (hZmem p hp')
-    show read p.1 (lastFrom T p.1.readNum Value.invalid (knownOf T fac st Z ++ st.unknown)) = p.2
-    rw [hs.2.1]
-    rw [lastFrom_knownOf T fac st Z st.unknown hnd hok hU p hp']
-    exact read_emit p.1 hs.1 p.2 (hslots p hp')
-  have hst : stateFrom T 0 (knownOf T fac st Z ++ st.unknown) = st.state := by
-    apply Nat.eq_of_testBit_eq
-    intro j
-    rw [testBit_stateFrom, anyMarked_append, anyMarked_not_stored T _ j hU, anyMarked_knownOf T fac st Z j hok]
-    simp only [Nat.zero_testBit, Bool.false_or, Bool.or_false]
-    cases hb : st.state.testBit j with
-    | true =>
-      have hj := testBit_le_log2 _ _ hb
-      rcases hstate j (List.mem_range.mpr hj) with h | h
-      · rw [hb] at h; cases h
-      · obtain ⟨p, hp', hpp⟩ := h
-        obtain ⟨⟨hnum, hce⟩, hem⟩ := hpp
-        have hmb : j < T.markBound := by
-          have := (wf_slot T hw p.1 (hZmem p hp')).2.2.2 hce
-          omega
-        have hex : isExpanded T st p.1.num = true := by
-          simp [isExpanded, hnum, hb]; omega
-        have : (Z.any fun p => (emit p.1 p.2).isSome && (p.1.num == j) && (p.1.canExpand && isExpanded T st p.1.num)) = true := by
-          rw [List.any_eq_true]
-          rw [hnum] at hex
-          exact ⟨p, hp', by simp [hem, hnum, hce, hex]⟩
-        simp [this, hmb]
-    | false =>
-      have : (Z.any fun p => (emit p.1 p.2).isSome && (p.1.num == j) && (p.1.canExpand && isExpanded T st p.1.num)) = false := by
-        rw [List.any_eq_false]
-        intro p _
-        by_cases hn : p.1.num = j
-        · have : isExpanded T st p.1.num = false := by
-            simp only [isExpanded, hn, hb]; split <;> rfl
-          simp [this]
-        · have : (p.1.num == j) = false := by simpa using hn
-          simp [this]
-      simp [this]
-  have hunk' : st.unknown = List.filter (fun f => !stored T f) (knownOf T fac st Z ++ st.unknown) := by
-    rw [List.filter_append]
-    have h1 : List.filter (fun f => !stored T f) (knownOf T fac st Z) = [] := by
-      rw [List.filter_eq_nil_iff]
-      intro f hfm
-      obtain ⟨p, hp', v, _, rfl⟩ := mem_knownOf T fac st Z f hfm
-      simp [mkF_stored T fac st p.1 v (hok p hp').1 (hok p hp').2]
-    have h2 : List.filter (fun f => !stored T f) st.unknown = st.unknown := by
-      rw [List.filter_eq_self]
-      intro f hfm; simp [hU f hfm]
-    rw [h1, h2]; rfl
-  have hdev' : (if T.hasDev = true then (toMesg T fac { includeExpanded := true } st).devFields else []) = st.dev := by
-    simp only [toMesg]
-    cases hd : T.hasDev with
-    | true => simp
-    | false =>
-      rcases hdev with h | h
-      · rw [hd] at h; cases h
-      · simp [h]
-  rw [hvals, hst, ← hunk', hdev']
 
 /-! ### MarkAsExpandedField -/
 
